@@ -25,6 +25,19 @@ Proof.
     match goal with |- context [is_enabled ?a ?b ?c] => destruct (is_enabled a b c) end; congruence.
 Qed.
 
+(* shiftTooManyBits is reported only when the count reaches the width of the promoted left operand, which is
+   at least the operand's own width and at least the width of int: the shift is undefined in C (6.5.7p3) *)
+Theorem shift_too_many_is_promoted_width cb sb ib lb llb b count :
+  (cb <= ib)%Z -> (sb <= ib)%Z -> (1 <= ib)%Z ->
+  shift_too_many ib lb llb b count = true ->
+  (shift_lhsbits ib lb llb b <= count)%Z /\
+  (own_bits cb sb ib lb llb b <= shift_lhsbits ib lb llb b)%Z /\
+  (match b with ILong | ILLong => True | _ => shift_lhsbits ib lb llb b = ib end).
+Proof.
+  unfold shift_too_many. intros H1 H2 H3 H. apply Z.leb_le in H. split; [exact H|].
+  destruct b; cbn; split; auto; lia.
+Qed.
+
 (* ---------- the leak machine against the heap semantics ---------- *)
 Lemma var_eqb_refl v : var_eqb v v = true. Proof. destruct v; reflexivity. Qed.
 Lemma var_eqb_other v : var_eqb (other v) v = false /\ var_eqb v (other v) = false. Proof. destruct v; split; reflexivity. Qed.
